@@ -524,6 +524,29 @@ pub fn decode_for(
     }
 }
 
+/// `decode_for`, and when the reference decoder rejects what a build stored, the library is asked before the
+/// harness is blamed: if it cannot read its own forest either, both agree that the forest is corrupt.
+pub fn decode_arbitrated<D: Distance>(
+    cfg: &RunCfg,
+    dump: &RawDump,
+    rtxn: &RoTxn,
+    db: Database<D>,
+    index: u16,
+    metric: Metric,
+) -> Result<IndexDump, Fail> {
+    match decode_for(cfg, dump, index, metric) {
+        Err(Fail::Infra(msg)) if cfg.structure => {
+            let lib = catch(|| Reader::<D>::open(rtxn, index, db).and_then(|r| r.assert_validity(rtxn)));
+            match lib {
+                Ok(Ok(())) => Err(Fail::Infra(msg)),
+                Ok(Err(e)) => violation("structure:undecodable", format!("{msg}; the library's own validity walk fails as well: {e:?}")),
+                Err(p) => violation("structure:undecodable", format!("{msg}; the library's own validity walk panics: {}", p.message)),
+            }
+        }
+        other => other,
+    }
+}
+
 /// All oracles that look at a built index through one (read or write) transaction.
 #[allow(clippy::too_many_arguments)]
 pub fn check_built_index<D: Distance>(
@@ -542,7 +565,11 @@ pub fn check_built_index<D: Distance>(
     let dump = raw_dump(rtxn, raw).map_err(Fail::Infra)?;
     let need_dump = cfg.structure || cfg.margins || cfg.tree_opts || cfg.format_roundtrip;
     // without a structural oracle the decoded dump only feeds the class counters of the evidence
-    let idx = if need_dump { Some(decode_for(cfg, &dump, isp.index, metric)?) } else { decode_index(&dump, isp.index, metric, false).ok() };
+    let idx = if need_dump {
+        Some(decode_arbitrated::<D>(cfg, &dump, rtxn, db, isp.index, metric)?)
+    } else {
+        decode_index(&dump, isp.index, metric, false).ok()
+    };
     let expected: BTreeSet<u32> = m.items.keys().copied().collect();
     let mut fstats = None;
     if cfg.structure {
@@ -589,6 +616,11 @@ pub fn check_built_index<D: Distance>(
         // secondary oracle; mine said OK at this point
         match catch(|| reader.assert_validity(rtxn)) {
             Ok(Ok(())) => {}
+            // the library cannot decode a node that it wrote itself and that the reference decoder reads: whoever is
+            // right about the layout, its trees do not reach their items
+            Ok(Err(arroy::Error::Heed(heed::Error::Decoding(e)))) => {
+                return violation("structure:unreadable", format!("the forest passes the reference walker but the library cannot decode one of its own nodes: {e:?}"))
+            }
             Ok(Err(e)) => return infra(format!("oracle disagreement: my walker accepts, assert_validity errs: {e:?}")),
             Err(p) => return infra(format!("oracle disagreement: my walker accepts, assert_validity panics: {}", p.message)),
         }
@@ -733,7 +765,7 @@ pub fn run_history_dump<D: Distance>(spec: &HistorySpec, cfg: &RunCfg, st: &mut 
                     // cheap structural check right after the build, inside the write txn
                     if cfg.structure || cfg.tree_opts {
                         let dump = raw_dump(&wtxn, raw).map_err(Fail::Infra)?;
-                        let idx = decode_for(cfg, &dump, isp.index, metric)?;
+                        let idx = decode_arbitrated::<D>(cfg, &dump, &wtxn, db, isp.index, metric)?;
                         let expected: BTreeSet<u32> = model[b.ix].items.keys().copied().collect();
                         match forest::check_structure(&idx, metric, isp.dims, &expected) {
                             Ok(s) => model[b.ix].prev_trees = s.n_trees,
